@@ -184,6 +184,7 @@ func (w *world) clone() *world {
 
 func (w *world) dispose() {
 	if w.srv != nil {
+		redisNoteDispose(w)
 		w.srv.Close()
 		return
 	}
